@@ -26,7 +26,7 @@ def write(pid, *, tier, seed, level, coverage, wall_s, violations=0, assumptions
         # development runs against a scratch copy of the repository (mutation experiments) must not overwrite the evidence
         os.makedirs(os.path.join(ROOT, "out", "scratch-evidence"), exist_ok=True)
         path = os.path.join(ROOT, "out", "scratch-evidence", f"{pid}.json")
-    tmp = path + ".tmp"
+    tmp = path + f".tmp{os.getpid()}"
     with open(tmp, "w") as f:
         json.dump(doc, f, indent=1, default=str)
     os.replace(tmp, path)
